@@ -10,6 +10,7 @@ HARNESSES = {
     "composer": {"crate": "astria-composer", "test": "executor::bundle_factory::verif::driver"},
     "core": {"crate": "astria-core", "test": "oracles::price_feed::utils::verif::driver"},
     "quorum": {"crate": "astria-conductor", "test": "celestia::verify::verif::driver"},
+    "ve": {"crate": "astria-sequencer", "features": "verif-ve", "test": "app::vote_extension::verif::driver"},
 }
 
 PROPS = {
@@ -67,15 +68,21 @@ PROPS = {
         "lean_modules": ["Astria.Quorum.Model", "Astria.Quorum.Theorems", "Astria.Quorum.Median", "Astria.Properties"],
         "theorems": ["Astria.C15_threshold", "Astria.C15_accept_sound", "Astria.C15_empty_ok", "Astria.C15_median_in_range",
                      "Astria.C15_original_counterexample"],
-        "harnesses": ["core"],
+        "harnesses": ["core", "ve"],
         "monitors": ["median_in_range", "ve_accept_sound", "ve_empty_ok"],
         "scope_regex": r"^(core median|quorum proposal) ",
         "nontrivial_regex": r"^(core median \S*,|quorum proposal .* => (ok|err:(insufficient|bad-signature|voted-twice|flag-mismatch)))",
         "rule": "in-crate harness on astria-core's private median: all lists of length <=2 (thorough <=4) over -4..4, 4000 (thorough 100000) "
-                "generated price vectors of length 1..9 incl. negative, odd, i128::MIN/MAX-adjacent values. non-trivial = a list with at least two "
-                "prices; distinct = distinct trace lines",
+                "generated price vectors of length 1..9 incl. negative, odd, i128::MIN/MAX-adjacent values; and an in-crate harness (child "
+                "module of app::vote_extension) on the real ProposalHandler::validate_proposal with real ed25519 keys: every j-of-k for k<=7 equal "
+                "validators (2/3 boundary), 1500 (thorough 20000) generated (validator set, last commit, extended commit) triples over 1..6 "
+                "validators with powers from {1,2,3,5,10,2^31,2^62,2^63-1}, honest or with one adversarial edit (missing / garbage / wrong-height / "
+                "foreign-key signature, repeated voter, flipped flag, changed power, swapped / dropped / pruned votes, extension or signature on "
+                "a non-commit vote, round mismatch, empty extended commit, height 1, unknown validator, validators going absent). non-trivial = "
+                "a list with at least two prices, or a proposal that reached the signature/threshold checks; distinct = distinct trace lines",
         "trusted_base": [KERNEL, "hand-written model Astria/Quorum/Model.lean (median, validate_proposal) tied to the code by the correspondence run",
-                         "harness /verif/harness/core/mod.rs + Lean driver", "ed25519 — sigOk is a parameter"],
+                         "harness /verif/harness/core/mod.rs, /verif/harness/sequencer/vote_extension.rs + Lean driver", "ed25519 — sigOk is a parameter",
+                         "the currency-pair-id mapping check that follows the quorum checks in validate_proposal is exercised only with empty price maps"],
         "assumptions": ["i128 overflow cannot occur in median (halves are added); the model uses unbounded Int",
                         "aggregation across validators (aggregate_oracle_votes) groups prices per pair id before the median; modelled as the list handed to median"],
         "explanation": "theorems: threshold arithmetic, acceptance soundness of validate_proposal for every signature oracle, median within range for every list",
